@@ -45,8 +45,9 @@ type Step struct {
 }
 
 type Session struct {
-	Cfg   SessCfg `json:"cfg"`
-	Steps []Step  `json:"steps"`
+	Cfg      SessCfg `json:"cfg"`
+	Steps    []Step  `json:"steps"`
+	RegLines int     `json:"reglines"` // lines the client writes before anything is received
 }
 
 type SessResult struct {
@@ -269,6 +270,32 @@ func runSession(s *Session) *SessResult {
 		_, err := srvConn.Write([]byte(line + "\r\n"))
 		return err == nil
 	}
+	countWritten := func() int {
+		wmu.Lock()
+		defer wmu.Unlock()
+		n := 0
+		for _, l := range written {
+			if !strings.HasPrefix(l, "PONG vbar") {
+				n++
+			}
+		}
+		return n
+	}
+	waitWritten := func(n int, d time.Duration) {
+		dl := time.Now().Add(d)
+		for countWritten() < n && time.Now().Before(dl) {
+			select {
+			case <-cond:
+			case <-time.After(5 * time.Millisecond):
+			}
+		}
+	}
+	// registration lines first: they are written by Connect's own goroutine and would otherwise interleave
+	// with the answers to the first received lines
+	if s.RegLines == 0 {
+		s.RegLines = registrationCount(s.Cfg)
+	}
+	waitWritten(s.RegLines, 20*time.Second)
 	nbar := 0
 	closed := false
 	barrier := func() bool {
@@ -280,7 +307,7 @@ func runSession(s *Session) *SessResult {
 		if !send("PING :" + tok) {
 			return false
 		}
-		deadline := time.After(3 * time.Second)
+		deadline := time.After(15 * time.Second)
 		for {
 			wmu.Lock()
 			found := false
@@ -311,7 +338,7 @@ func runSession(s *Session) *SessResult {
 		select {
 		case <-ok:
 			return true
-		case <-time.After(3 * time.Second):
+		case <-time.After(15 * time.Second):
 			return false
 		}
 	}
@@ -347,8 +374,9 @@ func runSession(s *Session) *SessResult {
 				res.Wedged = true
 			}
 		case "waitnick":
-			dl := time.Now().Add(3 * time.Second)
-			for c.GetNick() != st.Arg && time.Now().Before(dl) {
+			dl := time.Now().Add(15 * time.Second)
+			// the tracked nick itself (GetNick falls back to Config.Nick while it is still empty)
+			for girc.VerifDumpState(c)[0] != "nick="+st.Arg && time.Now().Before(dl) {
 				time.Sleep(time.Millisecond)
 			}
 		case "call":
@@ -368,6 +396,10 @@ func runSession(s *Session) *SessResult {
 			c.Close()
 		case "sleep":
 			time.Sleep(30 * time.Millisecond)
+		case "waitwritten":
+			var n int
+			fmt.Sscan(st.Arg, &n)
+			waitWritten(n, 3*time.Second)
 		case "waitconnect":
 			select {
 			case err := <-connDone:
@@ -382,17 +414,17 @@ func runSession(s *Session) *SessResult {
 		getConnect()
 	}
 	c.Close()
-	srvConn.Close()
 	if !closed {
 		select {
 		case err := <-connDone:
 			if res.Connect == "" {
 				res.Connect = "closed-at-end:" + classifyErr(err)
 			}
-		case <-time.After(5 * time.Second):
+		case <-time.After(20 * time.Second):
 			res.Connect = "no-return"
 		}
 	}
+	srvConn.Close()
 	wmu.Lock()
 	for _, l := range written {
 		if !strings.HasPrefix(l, "PONG vbar") {
